@@ -324,6 +324,7 @@ VecInit ==
     /\ \A v \in VecDomain : PrintT("VEC " \o ToJson([kind |-> v[1], side |-> v[2], class |-> v[3],
                                                      impl |-> ImplOutcome(v[1], v[2], v[3]),
                                                      oracle |-> OracleOutcomes(v[3])]))
+    /\ \A c \in AllClasses : PrintT("VECE " \o ToJson([class |-> c, ecdh |-> ImplECDH(c), degenerate |-> Degenerate(c)]))
     /\ \A u \in VecDDomain : PrintT("VECD " \o ToJson([ipriv |-> u[1], rpriv |-> u[2], rid |-> u[3]]))
 
 Init ==
